@@ -1251,3 +1251,235 @@ Proof.
   destruct (holes _ _ new 0 (AH 0)) as [|[q ra] r] eqn:EH; [reflexivity|].
   exfalso. apply (HL q ra). left. reflexivity.
 Qed.
+
+(* ====================================================================== *)
+(* top-level for loops WITH a loop variable (a global, see vm-loopvar-global) *)
+(* ====================================================================== *)
+Lemma step_range_op_lv nc gc rop S k : range_op rop S ->
+  jop_step nc gc (rop, 1) (AH (k + S)) = Some (ACond (k + S)) /\ jop_req (rop, 1) (AH (k + S)) = None.
+Proof.
+  intros [[-> ->]|[-> ->]]; unfold jop_step, jop_req; cbn [fst snd]; change (1 <? 65536) with true; cbn [negb].
+  - destruct (3 <=? k + 3) eqn:E; [|apply N.leb_gt in E; lia]. auto.
+  - destruct (2 <=? k + 2) eqn:E; [|apply N.leb_gt in E; lia]. auto.
+Qed.
+
+Lemma bok_hole_jof_cond nc gc pc k :
+  BOK nc gc [(true, (JumpOnFalse, 9999))] pc (ACond k) (AH (k + 1)) /\
+  holes nc gc [(true, (JumpOnFalse, 9999))] pc (ACond k) = [(pc, AH k)].
+Proof.
+  assert (ST : jop_step nc gc (JumpOnFalse, 9999) (ACond k) = Some (AH (k + 1))).
+  { unfold jop_step. cbn [fst snd]. change (9999 <? 65536) with true. reflexivity. }
+  unfold BOK. cbn [strip map snd jruns jannot htgt holes]. rewrite ST. unfold jop_req. cbn [fst snd]. repeat split.
+Qed.
+
+Lemma sop_ok_onone nc gc k : sop_ok nc gc (ONone, 0) k = Some (k + 1).
+Proof.
+  unfold sop_ok. cbn [is_sl negb has_operand andb simple_effect]. change (0 <? 65536) with true. change (0 =? 0) with true.
+  cbn [negb andb]. destruct (k <? 0) eqn:E; [apply N.ltb_lt in E; lia|]. f_equal. lia.
+Qed.
+
+Definition TLOOP (S : N) (st st' : cstate) : Prop :=
+  top_ok st' /\ index (cur (csym st)) <= index (cur (csym st')) /\ cbreaks st' = cbreaks st /\
+  exists new newc,
+    AOK new /\ ccode st' = ccode st ++ encode (strip new) /\ cconsts st' = cconsts st ++ newc /\
+    forall nc gc, N.of_nat (List.length (cconsts st')) <= nc -> index (cur (csym st')) <= gc ->
+      BOK nc gc new (pcof st) (AH (0 + S)) (AH 0) /\ holes nc gc new (pcof st) (AH (0 + S)) = [].
+
+Lemma for_loop_lv_ok rop S n b st st' : range_op rop S -> slist_ctl b ->
+  for_loop true (Some n) rop (Z.of_N S) b st = COk st' -> top_ok st -> TLOOP S st st'.
+Proof.
+  intros HRO HB HC HT. pose proof HT as (HO & HI & HN).
+  assert (HS : S < 65536) by (destruct HRO as [[_ ->]|[_ ->]]; lia).
+  destruct (st_define n (csym st)) as [sym' y] eqn:ED.
+  assert (HD1 : fst (st_define n (csym st)) = sym') by (rewrite ED; reflexivity).
+  assert (HD2 : snd (st_define n (csym st)) = y) by (rewrite ED; reflexivity).
+  destruct (define_frame n (csym st)) as (F1 & F2 & F3). rewrite HD1 in F1, F2, F3.
+  pose proof (inv_define n (csym st) HI) as HI'. rewrite HD1 in HI'.
+  pose proof (define_then_resolve (csym st) n) as DR. rewrite HD1, HD2 in DR.
+  assert (HO' : outers sym' = []) by congruence.
+  destruct (sym_top_globals _ HO' HI' _ _ DR) as [SG SI].
+  assert (HT' : top_ok (with_sym sym' st)) by (repeat split; cbn [with_sym csym]; auto; congruence).
+  destruct (top_gsym _ HT') as [HG' HGB']. cbn [with_sym csym] in HG', HGB'.
+  assert (HCb : for_loop true (Some n) rop (Z.of_N S) b st =
+    (emit true ONone [] (with_sym sym' st) >>= emit_set_var true y >>= fun st1 =>
+     emit true rop [1%Z] st1 >>= fun st2 =>
+     emit true JumpOnFalse [JumpPlaceholderZ] st2 >>= for_assign true (Some n) >>= fun st3 =>
+     body_of true b (with_sym (st_push (csym st3)) (with_breaks [] st3)) >>= fun st4 =>
+     emit true Jump [pos_of st1] (with_sym (st_pop (csym st4)) st4) >>= fun st5 =>
+     emit true Drop [Z.of_N S] st5 >>= fun st6 =>
+     patch true (pos_of st2) (pos_of st5) st6 >>= patch_all true (cbreaks st6) (pos_of st5) >>= fun st7 =>
+     COk (with_breaks (cbreaks st3) st7))).
+  { destruct b; cbn [for_loop for_declare bind body_of]; rewrite ED; reflexivity. }
+  rewrite HCb in HC. clear HCb.
+  destruct (emit true ONone [] (with_sym sym' st)) as [sa|] eqn:Ea; [|discriminate]. cbn [bind] in HC.
+  destruct (emit_set_var true y sa) as [st1|] eqn:Eb; [|discriminate]. cbn [bind] in HC.
+  destruct (emit true rop [1%Z] st1) as [st2|] eqn:E1; [|discriminate]. cbn [bind] in HC.
+  destruct (emit true JumpOnFalse [JumpPlaceholderZ] st2) as [st2'|] eqn:E2; [|discriminate]. cbn [bind] in HC.
+  destruct (for_assign true (Some n) st2') as [st3|] eqn:E2a; [|discriminate]. cbn [bind] in HC.
+  destruct (body_of true b (with_sym (st_push (csym st3)) (with_breaks [] st3))) as [st4|] eqn:E3; [|discriminate]. cbn [bind] in HC.
+  destruct (emit true Jump [pos_of st1] (with_sym (st_pop (csym st4)) st4)) as [st5|] eqn:E4; [|discriminate]. cbn [bind] in HC.
+  destruct (emit true Drop [Z.of_N S] st5) as [st6|] eqn:E5; [|discriminate]. cbn [bind] in HC.
+  destruct (patch true (pos_of st2) (pos_of st5) st6) as [st7|] eqn:E6; [|discriminate]. cbn [bind] in HC.
+  destruct (patch_all true (cbreaks st6) (pos_of st5) st7) as [st8|] eqn:E7; [|discriminate]. cbn [bind] in HC.
+  inversion HC; subst st'; clear HC.
+  destruct (step_range_op 0 0 rop S 0 HRO) as (_ & _ & HOr & HJr).
+  apply emit_enc0 in Ea; [|reflexivity]. subst sa.
+  pose proof Eb as Eb'. unfold emit_set_var in Eb'. rewrite SG in Eb'. apply emit_enc1 in Eb'; [|reflexivity].
+  destruct Eb' as [HRy ->]. rewrite N2Z.id in *. cbn [with_sym ccode cconsts csym cbreaks] in *.
+  apply emit_enc1 in E1; [|exact HOr]. destruct E1 as [_ ->]. change (Z.to_N 1) with 1 in *.
+  apply emit_hole in E2; [|reflexivity]. subst st2'.
+  unfold for_assign in E2a. cbn [csym] in E2a. rewrite DR in E2a. unfold emit_set_var in E2a. rewrite SG in E2a.
+  apply emit_enc1 in E2a; [|reflexivity]. destruct E2a as [_ ->]. rewrite N2Z.id in *. cbn [ccode cconsts csym cbreaks] in *.
+  assert (HG3 : gsym (st_push sym')) by (apply gsym_push; exact HG').
+  assert (HGB3 : has_gb (st_push sym')) by (apply has_gb_push; exact HGB').
+  pose proof (HB _ _ E3 HG3 HGB3) as (Sb & nb & cb & bb & Ab & Cb & Kb & Bb & NDb & Hb & Db).
+  unfold with_sym, with_breaks in Sb, Cb, Kb, Bb, Hb, Db. cbn [ccode cconsts csym cbreaks app] in Sb, Cb, Kb, Bb, Hb, Db.
+  apply emit_jump_to in E4. destruct E4 as [HRs ->]. unfold with_sym in E5, E6, E7. cbn [ccode cconsts csym cbreaks] in E5, E6, E7.
+  apply emit_enc1 in E5; [|reflexivity]. destruct E5 as [_ ->]. rewrite N2Z.id in *. cbn [ccode cconsts csym cbreaks] in E6, E7.
+  set (pc0 := pcof st) in *. set (idx := sidx y) in *.
+  set (top := pc0 + 4). set (jof := pc0 + 7). set (bstart := pc0 + 13).
+  set (PRE := [(false, (ONone, 0)); (false, (SetGlobal, idx))] : list hop).
+  set (W0 := PRE ++ (false, (rop, 1)) :: (true, (JumpOnFalse, 9999)) :: (false, (SetGlobal, idx)) :: (nb ++ [(false, (Jump, top))])).
+  set (W := W0 ++ [(false, (Drop, S))]).
+  assert (HIL : ilen_of (rop, 1) = 3) by (unfold ilen_of; cbn [fst]; rewrite HOr; reflexivity).
+  assert (Hidx : idx < 65536) by (unfold idx; lia).
+  assert (ETop : Z.to_N (pos_of {| ccode := (ccode st ++ enc1 (ONone, 0)) ++ enc1 (SetGlobal, idx); cconsts := cconsts st; csym := sym'; cbreaks := cbreaks st |}) = top).
+  { rewrite pos_pcof, N2Z.id. unfold pcof, top, pc0, pcof. cbn [ccode]. rewrite !app_length, !Nat2N.inj_add.
+    pose proof (decode1_enc1' (ONone, 0) [] ltac:(cbn; lia)) as [_ L1]. pose proof (decode1_enc1' (SetGlobal, idx) [] Hidx) as [_ L2].
+    rewrite L1, L2. unfold ilen_of. simpl. lia. }
+  assert (AW0 : AOK W0).
+  { unfold W0, PRE. repeat (constructor; [cbn; lia|]). apply aok_app; [exact Ab|].
+    constructor; [cbn; rewrite <- ETop; lia|constructor]. }
+  assert (AW : AOK W) by (unfold W; apply aok_app; [exact AW0|constructor; [cbn; exact HS|constructor]]).
+  assert (Pb : pcof {| ccode := (((((ccode st ++ enc1 (ONone, 0)) ++ enc1 (SetGlobal, idx)) ++ enc1 (rop, 1)) ++
+                                  encode (strip [(true, (JumpOnFalse, 9999))])) ++ enc1 (SetGlobal, idx));
+                       cconsts := cconsts st; csym := st_push sym'; cbreaks := [] |} = bstart).
+  { unfold pcof, bstart, pc0, pcof. cbn [ccode]. rewrite !app_length, !Nat2N.inj_add.
+    pose proof (decode1_enc1' (ONone, 0) [] ltac:(cbn; lia)) as [_ L1]. pose proof (decode1_enc1' (SetGlobal, idx) [] Hidx) as [_ L2].
+    pose proof (decode1_enc1' (rop, 1) [] ltac:(cbn; lia)) as [_ L3].
+    rewrite (aok_len [(true, (JumpOnFalse, 9999))]) by (constructor; [cbn; lia|constructor]).
+    rewrite L1, L2, L3, HIL. cbn [strip map snd]. rewrite total_len_cons. unfold total_len, ilen_of. simpl. lia. }
+  rewrite Pb in Hb, Db.
+  assert (EW0 : encode (strip W0) = enc1 (ONone, 0) ++ enc1 (SetGlobal, idx) ++ enc1 (rop, 1) ++
+                                    encode (strip [(true, (JumpOnFalse, 9999))]) ++ enc1 (SetGlobal, idx) ++ encode (strip nb) ++ enc1 (Jump, top)).
+  { unfold W0, PRE.
+    change ([(false, (ONone, 0)); (false, (SetGlobal, idx))] ++ (false, (rop, 1)) :: (true, (JumpOnFalse, 9999)) :: (false, (SetGlobal, idx)) :: nb ++ [(false, (Jump, top))])
+      with ([(false, (ONone, 0))] ++ [(false, (SetGlobal, idx))] ++ [(false, (rop, 1))] ++ [(true, (JumpOnFalse, 9999))] ++ [(false, (SetGlobal, idx))] ++ nb ++ [(false, (Jump, top))]).
+    rewrite !encode_strip_app. cbn [strip map snd]. rewrite !encode_one. reflexivity. }
+  assert (C5 : ccode st4 ++ encode (strip [(false, (Jump, Z.to_N (pos_of {| ccode := (ccode st ++ enc1 (ONone, 0)) ++ enc1 (SetGlobal, idx); cconsts := cconsts st; csym := sym'; cbreaks := cbreaks st |})))])
+               = ccode st ++ encode (strip W0)).
+  { rewrite Cb, ETop, EW0. cbn [strip map snd]. rewrite !encode_one, <- !app_assoc. reflexivity. }
+  assert (CW : (ccode st4 ++ encode (strip [(false, (Jump, Z.to_N (pos_of {| ccode := (ccode st ++ enc1 (ONone, 0)) ++ enc1 (SetGlobal, idx); cconsts := cconsts st; csym := sym'; cbreaks := cbreaks st |})))])) ++ enc1 (Drop, S)
+               = ccode st ++ encode (strip W)).
+  { rewrite C5. unfold W. rewrite encode_strip_app. cbn [strip map snd]. rewrite encode_one, <- app_assoc. reflexivity. }
+  set (endp := pc0 + total_len (strip W0)).
+  assert (BW : forall nc gc, N.of_nat (List.length (cconsts st4)) <= nc -> index (cur sym') <= gc ->
+            BOK nc gc W pc0 (AH (0 + S)) (AH 0) /\
+            In (endp, AH (0 + S)) (jannot nc gc (strip W) pc0 (AH (0 + S))) /\
+            forall p ra, In (p, ra) (holes nc gc W pc0 (AH (0 + S))) -> ra = AH (0 + S) /\ (p = jof \/ In p bb)).
+  { intros nc gc Hnc Hgc.
+    assert (HGl : globals_below sym' gc).
+    { intros m ym HR. destruct (sym_top_globals _ HO' HI' m ym HR) as [A1 A2]. split; [exact A1|lia]. }
+    assert (Hidg : idx < gc) by (unfold idx; lia).
+    (* the prologue: None; SetGlobal idx *)
+    destruct (runs_bok nc gc [(ONone, 0); (SetGlobal, idx)] pc0 (0 + S) (0 + S)) as [BKp HHp].
+    { cbn [runs]. rewrite sop_ok_onone, sop_ok_setglobal by lia. reflexivity. }
+    destruct (step_range_op_lv nc gc rop S 0 HRO) as (ST1 & RQ1).
+    assert (BK1 : BOK nc gc [(false, (rop, 1))] top (AH (0 + S)) (ACond (0 + S))).
+    { unfold BOK. cbn [strip map snd jruns jannot htgt]. rewrite ST1, RQ1. repeat split. }
+    assert (HH1 : holes nc gc [(false, (rop, 1))] top (AH (0 + S)) = []) by (cbn [holes]; rewrite ST1; reflexivity).
+    destruct (bok_hole_jof_cond nc gc jof (0 + S)) as [BKj HHj].
+    destruct (runs_bok nc gc [(SetGlobal, idx)] (pc0 + 10) (0 + S + 1) (0 + S)) as [BKs HHs].
+    { cbn [runs]. rewrite sop_ok_setglobal by lia. reflexivity. }
+    destruct (Db nc gc (0 + S) Hnc (globals_below_push _ _ HGl)) as [BKb HLb].
+    assert (Lp : pc0 + total_len (strip (solid [(ONone, 0); (SetGlobal, idx)])) = top).
+    { rewrite strip_solid. unfold total_len, top, ilen_of. simpl. lia. }
+    assert (L1 : top + total_len (strip [(false, (rop, 1))]) = jof).
+    { cbn [strip map snd]. rewrite total_len_cons, HIL. unfold total_len, top, jof. simpl. lia. }
+    assert (L2 : jof + total_len (strip [(true, (JumpOnFalse, 9999))]) = pc0 + 10).
+    { cbn [strip map snd]. rewrite total_len_cons. unfold total_len, jof, ilen_of. simpl. lia. }
+    assert (L3 : pc0 + 10 + total_len (strip (solid [(SetGlobal, idx)])) = bstart).
+    { rewrite strip_solid. unfold total_len, bstart, ilen_of. simpl. lia. }
+    assert (BK3 : BOK nc gc ([(false, (rop, 1))] ++ [(true, (JumpOnFalse, 9999))] ++ solid [(SetGlobal, idx)] ++ nb) top (AH (0 + S)) (AH (0 + S))).
+    { eapply bok_app; [exact BK1|]. rewrite L1. eapply bok_app; [exact BKj|]. rewrite L2.
+      eapply bok_app; [exact BKs|]. rewrite L3. exact BKb. }
+    assert (HIN : In (top, AH (0 + S)) (jannot nc gc (strip ([(false, (rop, 1))] ++ [(true, (JumpOnFalse, 9999))] ++ solid [(SetGlobal, idx)] ++ nb)) top (AH (0 + S)))).
+    { apply jannot_head. discriminate. }
+    destruct (bok_snoc_back nc gc _ top (AH (0 + S)) (0 + S) top BK3 HIN) as [BK4 HH4]; [rewrite <- ETop; lia|].
+    assert (BK5 : BOK nc gc W0 pc0 (AH (0 + S)) (AH (0 + S))).
+    { assert (X : BOK nc gc (solid [(ONone, 0); (SetGlobal, idx)] ++
+                              (([(false, (rop, 1))] ++ [(true, (JumpOnFalse, 9999))] ++ solid [(SetGlobal, idx)] ++ nb) ++ [(false, (Jump, top))]))
+                         pc0 (AH (0 + S)) (AH (0 + S))).
+      { eapply bok_app; [exact BKp|]. rewrite Lp. exact BK4. }
+      exact X. }
+    destruct (runs_bok nc gc [(Drop, S)] endp (0 + S) 0) as [BKd HHd].
+    { cbn [runs]. rewrite (sop_ok_drop nc gc S 0 HS). reflexivity. }
+    split; [|split].
+    - unfold W. eapply bok_app; [exact BK5|exact BKd].
+    - unfold W. rewrite strip_app, (jannot_app nc gc (strip W0) _ pc0 _ _ (proj1 BK5)).
+      apply in_or_app. right. fold endp. cbn [strip map snd jannot]. left. reflexivity.
+    - intros p ra Hin. unfold W in Hin.
+      apply (holes_app_in nc gc W0 _ pc0 _ _ _ (proj1 BK5)) in Hin. destruct Hin as [Hin|Hin];
+        [|exfalso; revert Hin; change (In (p, ra) (holes nc gc (solid [(Drop, S)]) endp (AH (0 + S))) -> False); rewrite HHd; intros []].
+      change W0 with (solid [(ONone, 0); (SetGlobal, idx)] ++
+                      (([(false, (rop, 1))] ++ [(true, (JumpOnFalse, 9999))] ++ solid [(SetGlobal, idx)] ++ nb) ++ [(false, (Jump, top))])) in Hin.
+      apply (holes_app_in nc gc _ _ pc0 _ _ _ (proj1 BKp)) in Hin. destruct Hin as [Hin|Hin]; [rewrite HHp in Hin; destruct Hin|].
+      rewrite Lp in Hin.
+      assert (Hin' : In (p, ra) (holes nc gc ([(false, (rop, 1))] ++ [(true, (JumpOnFalse, 9999))] ++ solid [(SetGlobal, idx)] ++ nb) top (AH (0 + S))))
+        by (rewrite <- HH4; exact Hin).
+      clear Hin. rename Hin' into Hin.
+      apply (holes_app_in nc gc [(false, (rop, 1))] _ top _ _ _ (proj1 BK1)) in Hin. destruct Hin as [Hin|Hin]; [rewrite HH1 in Hin; destruct Hin|].
+      rewrite L1 in Hin.
+      apply (holes_app_in nc gc [(true, (JumpOnFalse, 9999))] _ jof _ _ _ (proj1 BKj)) in Hin. destruct Hin as [Hin|Hin].
+      { assert (X : In (p, ra) [(jof, AH (0 + S))]) by (rewrite <- HHj; exact Hin).
+        destruct X as [Eq|[]]. inversion Eq; subst. split; [reflexivity|left; reflexivity]. }
+      rewrite L2 in Hin.
+      apply (holes_app_in nc gc (solid [(SetGlobal, idx)]) nb (pc0 + 10) _ _ _ (proj1 BKs)) in Hin.
+      destruct Hin as [Hin|Hin]; [rewrite HHs in Hin; destruct Hin|].
+      rewrite L3 in Hin. destruct (HLb _ _ Hin). split; [assumption|right; assumption]. }
+  assert (HJ : hole_at W pc0 jof).
+  { unfold W, W0, PRE. apply hole_at_app_l. cbn [app hole_at]. right. split; [unfold jof, ilen_of; simpl; lia|].
+    right. split; [unfold jof, ilen_of; simpl; lia|]. right. rewrite HIL. split; [unfold jof, ilen_of; simpl; lia|].
+    left. unfold jof, ilen_of. simpl. split; [lia|auto]. }
+  assert (HBs : forall p, In p bb -> hole_at W pc0 p).
+  { intros p Hp. unfold W, W0, PRE. apply hole_at_app_l. pose proof (hole_at_range _ _ _ (Hb p Hp)) as HR. unfold bstart in HR.
+    cbn [app hole_at]. right. split; [unfold ilen_of; simpl; lia|].
+    right. split; [unfold ilen_of; simpl; lia|]. right. rewrite HIL. split; [unfold ilen_of; simpl; lia|].
+    right. split; [unfold ilen_of; simpl; lia|]. right. split; [unfold ilen_of; simpl; lia|].
+    apply hole_at_app_l.
+    replace (pc0 + ilen_of (ONone, 0) + ilen_of (SetGlobal, idx) + 3 + ilen_of (JumpOnFalse, 9999) + ilen_of (SetGlobal, idx)) with bstart
+      by (unfold bstart, ilen_of; simpl; lia).
+    apply Hb. exact Hp. }
+  destruct (BW (N.of_nat (List.length (cconsts st4))) (index (cur sym')) (N.le_refl _) (N.le_refl _)) as [[RW _] _].
+  assert (EJ : pos_of {| ccode := ((ccode st ++ enc1 (ONone, 0)) ++ enc1 (SetGlobal, idx)) ++ enc1 (rop, 1); cconsts := cconsts st; csym := sym'; cbreaks := cbreaks st |} = Z.of_N jof).
+  { rewrite pos_pcof. f_equal. unfold pcof, jof, pc0, pcof. cbn [ccode]. rewrite !app_length, !Nat2N.inj_add.
+    pose proof (decode1_enc1' (ONone, 0) [] ltac:(cbn; lia)) as [_ L1]. pose proof (decode1_enc1' (SetGlobal, idx) [] Hidx) as [_ L2].
+    pose proof (decode1_enc1' (rop, 1) [] ltac:(cbn; lia)) as [_ L3]. rewrite L1, L2, L3, HIL. unfold ilen_of. simpl. lia. }
+  rewrite EJ in E6.
+  match type of E6 with patch _ _ ?T0 ?s0 = _ => set (TZ := T0) in *;
+    destruct (patch_fill _ _ jof TZ s0 st7 W (ccode st) (AH (0 + S)) (AH 0) CW RW HJ E6) as [HTz ->] end.
+  cbn [cbreaks] in E7. rewrite Bb in E7. cbn [app] in E7.
+  set (T := Z.to_N TZ) in *.
+  assert (HTN : T < 65536) by (unfold T; lia).
+  destruct (fill_frame _ _ [jof] T HTN W pc0 (AH (0 + S)) (AH 0) RW) as (RW1 & _ & _).
+  eapply (patch_all_fill _ _ _ bb _ st8 (fill [jof] T W pc0) (ccode st) (AH (0 + S)) (AH 0) NDb) in E7;
+    [|reflexivity|exact RW1|].
+  2:{ intros p Hp. apply hole_at_fill_sel; [|apply HBs; exact Hp].
+      intros [<-|[]]. pose proof (hole_at_range _ _ _ (Hb _ Hp)). unfold bstart, jof in *. lia. }
+  destruct E7 as [_ ->]. rewrite fill_fill.
+  assert (ET : T = endp).
+  { unfold T, TZ. rewrite pos_pcof, N2Z.id. unfold pcof. cbn [ccode]. unfold endp.
+    rewrite C5, app_length, Nat2N.inj_add, (aok_len W0 AW0). reflexivity. }
+  unfold TLOOP, with_breaks, top_ok. cbn [ccode cconsts csym cbreaks]. fold pc0.
+  assert (SF : st_pop (csym st4) = sym') by (rewrite Sb; apply pop_push_id; exact HG').
+  split; [rewrite SF; split; [exact HO'|split; [exact HI'|congruence]]|]. split; [rewrite SF; exact F3|]. split; [reflexivity|].
+  exists (fill (bb ++ [jof]) T W pc0), cb.
+  split; [apply aok_fill; assumption|]. split; [reflexivity|]. split; [exact Kb|].
+  intros nc gc Hnc Hgc. rewrite SF in Hgc. destruct (BW nc gc Hnc Hgc) as (BKW & HEND & HLW).
+  split.
+  - apply bok_fill; [exact HTN|exact BKW|]. intros p ra Hin _. right. destruct (HLW _ _ Hin) as [-> _]. rewrite ET. exact HEND.
+  - destruct (holes nc gc (fill (bb ++ [jof]) T W pc0) pc0 (AH (0 + S))) as [|[p ra] r] eqn:EH; [reflexivity|exfalso].
+    assert (Hin : In (p, ra) (holes nc gc (fill (bb ++ [jof]) T W pc0) pc0 (AH (0 + S)))) by (rewrite EH; left; reflexivity).
+    destruct (holes_fill nc gc (bb ++ [jof]) T HTN W pc0 _ _ (proj1 BKW) p ra Hin) as [Hin0 HNs].
+    destruct (HLW _ _ Hin0) as [_ [->|Hp]]; apply HNs; apply in_or_app; [right; left; reflexivity|left; exact Hp].
+Qed.
